@@ -656,7 +656,10 @@ fn rows_dep3() -> Vec<Row> {
     v.push(d3!("origin", "Origin", "backport, commit:0000", clear = false,
         values = [(Some(OriginCategory::Upstream), Origin::Commit("abc123".to_string())),
                   (None, Origin::Other("https://example.com/patch/1".to_string())),
-                  (Some(OriginCategory::Vendor), Origin::Other("https://bugs.debian.org/1".to_string()))],
+                  (Some(OriginCategory::Vendor), Origin::Other("https://bugs.debian.org/1".to_string())),
+                  // free text holding the category separator, with and without a category in front
+                  (None, Origin::Other("Ubuntu, https://launchpad.net/ubuntu/+source/x".to_string())),
+                  (Some(OriginCategory::Other), Origin::Other("Fedora, https://example.com/p, rebased".to_string()))],
         set = |s, x| s.set_origin(x.0, x.1), clear_set = |_s| (), clear_want = "None",
         get = |s| s.origin(), want = |x| Some(x)));
     v.push(d3!("forwarded", "Forwarded", "https://old.example.com/1", clear = false,
@@ -1107,6 +1110,7 @@ fn read_dep3() -> Vec<ReadRow> {
             ("Description: x\nOrigin: other, https://example.com/p\n", "Some((Some(Other), Other(\"https://example.com/p\")))"),
             ("Description: x\nOrigin: https://example.com/p\n", "Some((None, Other(\"https://example.com/p\")))"),
             ("Description: x\nOrigin: commit:abc123\n", "Some((None, Commit(\"abc123\")))"),
+            ("Description: x\nOrigin: Ubuntu, https://launchpad.net/x\n", "Some((None, Other(\"Ubuntu, https://launchpad.net/x\")))"),
             ("Description: x\n", "None"),
         ]),
         // Forwarded: "no", "not-needed", anything else means forwarded
